@@ -93,6 +93,7 @@ func loadProgram(cfg *Config) (*program, error) {
 	if nerr > 0 {
 		return nil, fmt.Errorf("%d load errors in yardl packages (harness does not type-check against the current tree?)", nerr)
 	}
+	collectEmbedStrings(initial)
 	prog, _ := ssautil.AllPackages(initial, ssa.InstantiateGenerics|ssa.SanityCheckFunctions&0)
 	prog.Build()
 	p := &program{prog: prog, pkgs: map[string]*ssa.Package{}, load: time.Since(t0)}
